@@ -63,6 +63,12 @@ RULES = {
         "re-allocated). Index arrays are shared by reference count with Layout/Weak/Shallow clones, layout() objects and matrices built from "
         "them. Broken -> permuting / sorting / refilling one container silently changes the layout of its weak clones (their values no longer "
         "belong to the stored positions).", 30),
+    "C20.clone-cross-type": (
+        "aliasing clause for the templated Container::clone(const Container<DT2,IT2>&, mode): composing the extracted sharing table of "
+        "Container::assign with the extracted aliasing table of Container::clone (and move), every array kind the mode documents as "
+        "freshly allocated (index arrays: Deep, Allocate; data arrays: Layout, Weak, Deep, Allocate) must not alias the source, for each "
+        "(data type same/different) x (index type same/different) instantiation (same rule as C02.clone-cross-type, lib/lafem_rules). "
+        "Broken -> a 'deep' clone across data types shares the source's index arrays: an in-place edit of one changes the other.", 18),
     "C20.pool-release": (
         "MemoryPool::release_memory looks the address up, frees and erases the entry exactly when the counter is 1 and "
         "decrements it by one otherwise.", 4),
@@ -484,6 +490,8 @@ def run(tier):
         for msg in L.errors_in_family(fam, fx):
             ck.incomplete("C20.exit-state", msg)
         nfun += container_rules(ck, fam)
+        if fx is facts:
+            L.cross_clone_rules(ck, fam, set(), rule="C20.clone-cross-type")
     pool_rules(ck, facts, runtime)
 
     ck.assume("a moved-from std::vector (move construction / move assignment with std::allocator) is empty; the explicit other._x.clear() calls are therefore not required by any rule")
